@@ -214,7 +214,7 @@ func actionsWithRequiredInputs() []string {
 
 func TestC02(t *testing.T) {
 	hx.Main(t, "C02", func(r *hx.Run) {
-		R := hx.N(16, 48)
+		R := hx.N(16, 32)
 		r.Rule = fmt.Sprintf("collision templates (format() with several unused/missing placeholders; popular action with >=2 required inputs omitted; call of a local reusable workflow omitting several required inputs and secrets; runs-on label sets with one conflicting label; needs graphs with 2-3 disjoint cycles; a broken local action used by 2-4 jobs; unknown inputs/keys listing alternatives), random model workflows with 1-5 seeded errors, the repository's testdata/err files, and multi-file worlds. Each case is linted %d times with fresh linters under GOMAXPROCS 1/2/4/16 (every run re-randomises Go's map iteration); oracle: byte equality of the -oneline output and of the []*Error sequence. Non-trivial = the output has two diagnostics at one position or the case is a multi-candidate template; distinct = hash of the files.", R)
 		r.Assumptions = []string{"shellcheck/pyflakes disabled (C20 owns them)", "an order dependence between two candidates survives R runs with probability 2^-(R-1)"}
 		twoReq := actionsWithRequiredInputs()
@@ -336,7 +336,7 @@ func TestC02(t *testing.T) {
 			})
 		}
 		// random workflows with seeded errors
-		r.Check(t, "random-workflows", hx.N(400, 12000), func(rt *rapid.T) {
+		r.Check(t, "random-workflows", hx.N(400, 6000), func(rt *rapid.T) {
 			g := &wf.G{T: rt}
 			w := g.Workflow()
 			leaves := scalarLeaves(w.Root)
@@ -390,7 +390,7 @@ func TestC02(t *testing.T) {
 			})
 		}
 		// multi-file worlds
-		r.Check(t, "multi-file", hx.N(40, 1500), func(rt *rapid.T) {
+		r.Check(t, "multi-file", hx.N(40, 800), func(rt *rapid.T) {
 			n := rapid.IntRange(3, 12).Draw(rt, "nfiles")
 			c := &c02Case{Kind: "multi-file", Repo: true, Files: map[string]string{}}
 			for i := 0; i < n; i++ {
@@ -409,7 +409,7 @@ func TestC02(t *testing.T) {
 			run(rt, c, true)
 		})
 		// the semantic checker as a library: same typing environment + expression => same errors
-		r.Check(t, "sema-api-repeat", hx.N(6000, 150000), func(rt *rapid.T) {
+		r.Check(t, "sema-api-repeat", hx.N(6000, 100000), func(rt *rapid.T) {
 			env := &tenv{Ctx: map[string]*tyd{}}
 			for i := 0; i < rapid.IntRange(1, 3).Draw(rt, "nctx"); i++ {
 				name := rapid.SampledFrom(c06Contexts).Draw(rt, "ctxname")
@@ -464,7 +464,7 @@ func TestC02(t *testing.T) {
 			}
 		})
 		// several repositories (own configuration, local actions, reusable workflows) in one invocation
-		r.Check(t, "multi-repository", hx.N(60, 2000), func(rt *rapid.T) {
+		r.Check(t, "multi-repository", hx.N(60, 1000), func(rt *rapid.T) {
 			w10, _ := genC10World(rt)
 			c := &c02Case{Kind: "multi-repository", Files: w10.Files, Repos: w10.Repos, Targets: w10.Args}
 			run(rt, c, true)
